@@ -18,6 +18,7 @@ import (
 	"crypto"
 	"crypto/ecdsa"
 	"crypto/ed25519"
+	"crypto/elliptic"
 	"crypto/rand"
 	"crypto/rsa"
 	"errors"
@@ -48,7 +49,7 @@ func SignPrivateKey(digest []byte, algorithm string, key jwk.Key) (signature []b
 		return signPrivateKeyRSAPSS(digest, getSHAHash(algorithm), key)
 
 	case Algorithm_ES256, Algorithm_ES384, Algorithm_ES512:
-		return signPrivateKeyECDSA(digest, key)
+		return signPrivateKeyECDSA(digest, algorithm, key)
 
 	case Algorithm_EdDSA:
 		return signPrivateKeyEdDSA(digest, key)
@@ -74,13 +75,30 @@ func signPrivateKeyRSAPSS(digest []byte, hash crypto.Hash, key jwk.Key) ([]byte,
 	return rsa.SignPSS(rand.Reader, rsaKey, hash, digest, nil)
 }
 
-func signPrivateKeyECDSA(digest []byte, key jwk.Key) ([]byte, error) {
+func signPrivateKeyECDSA(digest []byte, algorithm string, key jwk.Key) ([]byte, error) {
 	ecdsaKey := &ecdsa.PrivateKey{}
 	if key.Raw(ecdsaKey) != nil {
 		return nil, ErrKeyTypeMismatch
 	}
+	if ecdsaKey.Curve != getECDSACurve(algorithm) {
+		return nil, ErrKeyTypeMismatch
+	}
 
 	return ecdsa.SignASN1(rand.Reader, ecdsaKey, digest)
+}
+
+// getECDSACurve returns the curve an ECDSA signature algorithm is defined over (RFC 7518 section 3.4):
+// ES256 uses P-256, ES384 uses P-384, ES512 uses P-521.
+func getECDSACurve(algorithm string) elliptic.Curve {
+	switch algorithm {
+	case Algorithm_ES256:
+		return elliptic.P256()
+	case Algorithm_ES384:
+		return elliptic.P384()
+	case Algorithm_ES512:
+		return elliptic.P521()
+	}
+	return nil
 }
 
 func signPrivateKeyEdDSA(message []byte, key jwk.Key) ([]byte, error) {
@@ -122,7 +140,7 @@ func VerifyPublicKey(digest []byte, signature []byte, algorithm string, key jwk.
 		return verifyPublicKeyRSAPSS(digest, signature, getSHAHash(algorithm), key)
 
 	case Algorithm_ES256, Algorithm_ES384, Algorithm_ES512:
-		return verifyPublicKeyECDSA(digest, signature, key)
+		return verifyPublicKeyECDSA(digest, signature, algorithm, key)
 
 	case Algorithm_EdDSA:
 		return verifyPublicKeyEdDSA(digest, signature, key)
@@ -162,9 +180,12 @@ func verifyPublicKeyRSAPSS(digest []byte, signature []byte, hash crypto.Hash, ke
 	return true, nil
 }
 
-func verifyPublicKeyECDSA(digest []byte, signature []byte, key jwk.Key) (bool, error) {
+func verifyPublicKeyECDSA(digest []byte, signature []byte, algorithm string, key jwk.Key) (bool, error) {
 	ecdsaKey := &ecdsa.PublicKey{}
 	if key.Raw(ecdsaKey) != nil {
+		return false, ErrKeyTypeMismatch
+	}
+	if ecdsaKey.Curve != getECDSACurve(algorithm) {
 		return false, ErrKeyTypeMismatch
 	}
 
